@@ -412,10 +412,14 @@ Proof.
   unfold run_cli; cbn [run_cli_fuel run_parse]. unfold theory_from_file. rewrite R. reflexivity.
 Qed.
 
-(* whatever `simplify` prints: IF the simplified theory is well-formed and outside the classes, it is
-   fed back unchanged.  The two premises are what is not proved for the portfolios (see
-   Properties/C15out.v: class-freedom is not preserved by the classic portfolio). *)
-Theorem cli_simplify_feeds_back_partial pf st s out :
+(* NOT a statement about the simplifier: the text round trip (Proofs/FolLexOk.text_theory) restated for
+   whatever theory g `simplify` prints.  Its premises, well-formedness and class-freedom of g, are
+   properties of the OUTPUT, i.e. exactly what a theorem about `simplify` would have to establish; they
+   are FALSE in general (every portfolio creates members of the classes from class-free input,
+   Properties/C15out.v: C15_simplify_creates_RIMP, C15_simplify_creates_F7b_split, _subst).  Kept only as the glue
+   the op fol_output_reparses relies on: a printed theory that is well-formed and outside the classes
+   must be fed back. *)
+Theorem cli_simplify_text_round_trip_restated pf st s out :
   run_cli (Simplify pf st) s = Stdout out ->
   exists t g,
     parse_theory_str s = PR_ok t /\ simplify_theory pf st t = Got g /\ out = show_theory g /\
